@@ -5066,6 +5066,34 @@ class TLSConnection(TLSRecordLayer):
                 raise TLSFaultError(str(alert))
             else:
                 pass
+        except (TLSProtocolException, TLSInternalError) as exc:
+            # a protocol violation was detected deep in the handshake code
+            # without being translated: tell the peer before closing
+            description = AlertDescription.internal_error
+            for exc_type, desc in (
+                    (TLSIllegalParameterException,
+                     AlertDescription.illegal_parameter),
+                    (TLSDecodeError, AlertDescription.decode_error),
+                    (TLSUnexpectedMessage,
+                     AlertDescription.unexpected_message),
+                    (TLSRecordOverflow, AlertDescription.record_overflow),
+                    (TLSDecryptionFailed, AlertDescription.decrypt_error),
+                    (TLSBadRecordMAC, AlertDescription.bad_record_mac),
+                    (TLSInsufficientSecurity,
+                     AlertDescription.insufficient_security),
+                    (TLSUnknownPSKIdentity,
+                     AlertDescription.unknown_psk_identity),
+                    (TLSHandshakeFailure,
+                     AlertDescription.handshake_failure)):
+                if isinstance(exc, exc_type):
+                    description = desc
+                    break
+            try:
+                for result in self._sendError(description, str(exc)):
+                    yield result
+            except socket.error:
+                self._shutdown(False)
+                raise exc
         except:
             self._shutdown(False)
             raise
